@@ -93,7 +93,6 @@ def run_case(case):
 
     obs = {"posts": [], "delivered": [], "enter": None, "harness_errors": []}
     clients = []
-    streams = []
     given = []
 
     def dump(m):
@@ -113,7 +112,6 @@ def run_case(case):
                 self.q = collections.deque()
                 self.waiter = None
                 self.closed = False
-                streams.append(self)
 
             def push(self, item):
                 self.q.append(item)
@@ -289,7 +287,7 @@ def run_case(case):
                     obs["rs"], obs["ws"] = rs, ws
                     reader_task = asyncio.create_task(reader(rs))
 
-                    def writer(r):
+                    def mk_write(r):
                         def f():
                             try:
                                 msg = {"jsonrpc": "2.0", "method": r.get("method", "tools/list")}
@@ -303,7 +301,7 @@ def run_case(case):
                     if canceller:
                         loop.at(t0 + ex["at"], canceller[0])
                     for r in case.get("reqs", []):
-                        loop.at(t0 + r["at"], writer(r))
+                        loop.at(t0 + r["at"], mk_write(r))
                     if canceller:
                         await loop.create_future()  # until cancelled from outside
                     await at_future(t0 + ex["at"])
@@ -346,7 +344,6 @@ def run_case(case):
                     reader_task.cancel()
                 except Exception as e:
                     after["reader"] = "exc:" + type(e).__name__
-                # whatever is still buffered
             leaked = [t for t in asyncio.all_tasks(loop) if t is not me and not t.done() and t is not reader_task]
             after["tasks"] = sorted(getattr(t.get_coro(), "__qualname__", "?") for t in leaked)
             after["clients_open"] = sum(1 for c in clients if not c.is_closed)
